@@ -24,7 +24,16 @@ type workload struct {
 	Audio bool
 	Video bool
 	Debug bool // Config.DebugLCD (sprites and window drawn in colour)
+	Shape int  // 0: cartridge kind and size follow from the seed; n>0: freeShapes[n-1] (several instances of one shape)
 }
+
+// freeShapes are cartridge shapes given to all instances of a scenario at once: the largest image
+// each controller family takes, and the smallest.
+var freeShapes = []struct {
+	kind string
+	rom  uint8
+	ram  uint8
+}{{"mbc5", 8, 3}, {"mbc5", 8, 0}, {"mbc1", 6, 3}, {"mbc3", 6, 3}, {"mbc5", 7, 4}, {"rom", 0, 0}, {"mbc2", 3, 0}, {"mbc3", 8, 5}}
 
 func (w workload) store(sc *engine.Scenario, pfx string) {
 	sc.SetStr(pfx+"wl", w.Kind)
@@ -43,11 +52,14 @@ func (w workload) store(sc *engine.Scenario, pfx string) {
 	if w.Debug {
 		sc.SetP(pfx+"debuglcd", 1)
 	}
+	if w.Shape != 0 {
+		sc.SetP(pfx+"shape", int64(w.Shape))
+	}
 }
 
 func loadWorkload(sc *engine.Scenario, pfx string) workload {
 	return workload{Kind: sc.Str(pfx + "wl"), ROM: sc.Str(pfx + "rom"), Seed: uint64(sc.P(pfx+"wseed", 1)),
-		Audio: sc.P(pfx+"audio", 0) != 0, Video: sc.P(pfx+"video", 0) != 0, Debug: sc.P(pfx+"debuglcd", 0) != 0}
+		Audio: sc.P(pfx+"audio", 0) != 0, Video: sc.P(pfx+"video", 0) != 0, Debug: sc.P(pfx+"debuglcd", 0) != 0, Shape: int(sc.P(pfx+"shape", 0))}
 }
 
 // ROMs that run under the simulator without relying on anything outside the emulator.
@@ -104,6 +116,14 @@ func newFree(w workload, chanCap int, res *engine.Result) *machine.Machine {
 		if k == "mbc3rtc" {
 			spec.Kind = "mbc3"
 		}
+		if w.Shape > 0 && w.Shape <= len(freeShapes) {
+			s := freeShapes[w.Shape-1]
+			spec.Kind, spec.RomCode, spec.RamCode = s.kind, s.rom, s.ram
+			spec.Type = 0
+			if s.kind != "rom" {
+				spec.Type = cartTypeFor(s.kind)
+			}
+		}
 		if w.Kind == "irq" {
 			// every handler sends the low byte of its own vector to the serial port: the order in which
 			// simultaneous requests are served becomes part of the trace
@@ -121,6 +141,29 @@ func newFree(w workload, chanCap int, res *engine.Result) *machine.Machine {
 		return nil
 	}
 	m.GuardUndefined = true
+	if w.Kind != "rom" && img[0x147] != 0 {
+		// first touch: straight after construction the guest's view of far-away ROM pages (selected and
+		// read over the bus) is part of the instance's trace; page 1 is selected again afterwards
+		dg := engine.NewDigest()
+		pages := 2 << img[0x148]
+		for _, p := range []int{pages - 1, pages / 2, pages/2 + 1, 2, 3, pages - 2, 255, 256, 31, 32} {
+			if p < 2 || p >= pages {
+				continue
+			}
+			if img[0x147] >= 0x19 && img[0x147] <= 0x1e {
+				m.Write(0x3000, uint8(p>>8))
+			}
+			m.Write(0x2100, uint8(p))
+			for _, a := range []uint16{0x4000, 0x5555, 0x7fff} {
+				dg.Byte(m.Read(a))
+			}
+		}
+		if img[0x147] >= 0x19 && img[0x147] <= 0x1e {
+			m.Write(0x3000, 0)
+		}
+		m.Write(0x2100, 1)
+		m.Aux = uint64(dg)
+	}
 	r := engine.NewRand(w.Seed)
 	lcdOffScene := false
 	if w.Kind == "scene-lcdoff" {
@@ -333,6 +376,7 @@ func (t *tracer) checkpoint() {
 	m := t.m
 	r := m.CPU.VerifGetRegs()
 	t.dg.Bytes([]byte{r.A, r.F, r.B, r.C, r.D, r.E, r.H, r.L})
+	t.dg.U64(m.Aux)
 	t.dg.U16(r.SP)
 	t.dg.U16(r.PC)
 	t.dg.Byte(m.IRQ.ReadIF())
@@ -342,6 +386,10 @@ func (t *tracer) checkpoint() {
 	t.dg.Byte(m.PPU.ReadLY())
 	t.dg.Byte(m.PPU.ReadSTAT())
 	t.dg.Byte(m.APU.ReadNR52())
+	// the cartridge as the guest would read it just now (both ROM windows; reads change nothing)
+	for i := uint64(0); i < 4; i++ {
+		t.dg.Byte(m.Read(uint16((m.N/t.every*131 + i*0x2003) & 0x7fff)))
+	}
 	for len(m.SerialOut) > t.serialN {
 		t.dg.Byte(m.SerialOut[t.serialN])
 		t.serialN++
@@ -363,12 +411,63 @@ func (t *tracer) finish() uint64 {
 	}
 	o := t.m.PeekOAM()
 	t.dg.Bytes(o[:])
+	for a := 0; a < 0x8000; a += 61 {
+		t.dg.Byte(t.m.Read(uint16(a)))
+	}
 	// every I/O register as a guest would read it (reads have no side effects)
 	for a := 0xff00; a < 0xff80; a++ {
 		t.dg.Byte(t.m.Read(uint16(a)))
 	}
 	t.points = append(t.points, uint64(t.dg))
 	return uint64(t.dg)
+}
+
+// runWithConsumer runs the workload for the given number of frames with the real Run loop in a
+// goroutine of its own and the audio device played by this goroutine: it takes `burst` left samples,
+// then `burst` right samples, and so on (the emulator blocks on full queues meanwhile). Returns both
+// streams.
+func runWithConsumer(w workload, frames, chanCap, burst int, res *engine.Result) (ls, rs []float32, ok bool) {
+	w.Audio = true
+	m := newFree(w, chanCap, res)
+	if m == nil {
+		return nil, nil, false
+	}
+	m.Ctx().CancelAtDoneCall = frames + 1
+	done := make(chan *machine.PanicInfo, 1)
+	go func() {
+		done <- machine.Protect(func() { m.RunReal() })
+	}()
+	l, r := m.Spk.Left(), m.Spk.Right()
+	open := true
+	for open {
+		for i := 0; i < burst && open; i++ {
+			v, k := <-l
+			if !k {
+				open = false
+				break
+			}
+			ls = append(ls, v)
+		}
+		for i := 0; i < burst && open; i++ {
+			v, k := <-r
+			if !k {
+				open = false
+				break
+			}
+			rs = append(rs, v)
+		}
+	}
+	for v := range r {
+		rs = append(rs, v)
+	}
+	for v := range l {
+		ls = append(ls, v)
+	}
+	if pi := <-done; pi != nil && !pi.Emulator {
+		res.Harness = "harness panic: " + pi.Value + "\n" + pi.Stack
+		return nil, nil, false
+	}
+	return ls, rs, true
 }
 
 // applyKeyEvents delivers the key events due at the instance's current boundary.
